@@ -97,6 +97,12 @@ def evaluate_on_grid(
             nz,
         )
 
+        if cell_positions_in_original_basis_z is None:
+            # Cells of a two-dimensional mesh have no extent along the line of sight:
+            # they are seen by every depth sample of a thick map
+            iz1 = 0
+            iz2 = nz
+
         for k in range(iz1, iz2):
             for j in range(iy1, iy2):
                 for i in range(ix1, ix2):
